@@ -2,7 +2,7 @@
    Proofs/PGraphProofs.v.  [pbuild] and [reversed] transcribe graph_builder.go and Reversed() (after the
    repair F7) over a model of gonum's multigraph with sequential IDs (Model/PGraph.v). *)
 From Coq Require Import Permutation.
-From Verif Require Import Base.Str Model.Ast Model.WGraph Model.PGraph Proofs.PGraphProofs.
+From Verif Require Import Base.Str Model.Ast Model.WGraph Model.PGraph Proofs.PGraphProofs Proofs.BfsProofs.
 
 (* 1. reversing keeps the nodes (IDs and labels) and negates the drawing direction, for every graph *)
 Theorem C17_reverse_keeps_nodes : forall g,
@@ -29,6 +29,38 @@ Proof. intros m. rewrite pbuild_reverse_twice. reflexivity. Qed.
 Theorem C17_path_duality : forall m x y,
   path (pg_lines (pbuild m)) x y <-> path (pg_lines (reversed (pbuild m))) y x.
 Proof. exact pbuild_path_duality. Qed.
+
+(* 4'. path queries are sound and complete, for every graph: PathExists (the breadth-first closure of the start
+       node in Model/PGraph.v) answers true exactly when a path of lines leads from the first label's node to the
+       second's, false exactly when none does, and gives no answer exactly when a label is unknown; hence the
+       answers in a built graph and in its reversal mirror each other *)
+Theorem C17_path_queries_sound_and_complete : forall g a b x y,
+  find_pnode a g = Some x -> find_pnode b g = Some y ->
+  (path_exists g a b = Some true <-> path (pg_lines g) (pn_id x) (pn_id y)) /\
+  (path_exists g a b = Some false <-> ~ path (pg_lines g) (pn_id x) (pn_id y)).
+Proof. exact path_exists_spec. Qed.
+
+Theorem C17_path_query_unanswered_iff_unknown_label : forall g a b,
+  path_exists g a b = None <-> find_pnode a g = None \/ find_pnode b g = None.
+Proof. exact path_exists_none. Qed.
+
+Theorem C17_path_query_duality : forall m a b,
+  path_exists (pbuild m) a b = path_exists (reversed (pbuild m)) b a.
+Proof.
+  intros m a b.
+  assert (Hf : forall l, find_pnode l (reversed (pbuild m)) = find_pnode l (pbuild m)) by reflexivity.
+  destruct (find_pnode a (pbuild m)) as [x|] eqn:Ea, (find_pnode b (pbuild m)) as [y|] eqn:Eb.
+  - destruct (path_exists_spec (pbuild m) a b x y Ea Eb) as [T1 F1].
+    destruct (path_exists_spec (reversed (pbuild m)) b a y x) as [T2 F2]; [rewrite Hf; exact Eb|rewrite Hf; exact Ea|].
+    pose proof (pbuild_path_duality m (pn_id x) (pn_id y)) as D.
+    destruct (path_exists (pbuild m) a b) as [[|]|] eqn:E1.
+    + symmetry. apply T2. apply D. apply T1. reflexivity.
+    + symmetry. apply F2. intros P. apply D in P. apply (proj1 F1 eq_refl). exact P.
+    + apply path_exists_none in E1. destruct E1; congruence.
+  - transitivity (@None bool); [apply path_exists_none; auto|]. symmetry. apply path_exists_none. left. rewrite Hf. exact Eb.
+  - transitivity (@None bool); [apply path_exists_none; auto|]. symmetry. apply path_exists_none. right. rewrite Hf. exact Ea.
+  - transitivity (@None bool); [apply path_exists_none; auto|]. symmetry. apply path_exists_none. right. rewrite Hf. exact Ea.
+Qed.
 
 (* 5. the DOT content is a function of the model alone: [pbuild] takes no ULID supply and no iteration order
       (operator nodes are labelled by their operator; their unique labels never reach the DOT content) *)
